@@ -404,6 +404,9 @@ func RunC04(c *Ctx) {
 		}
 	}
 	idx = e.explicitRanges(idx, false)
+	// I/O errors: a call failed by an injected error takes effect entirely or not at
+	// all, a call that still returns nil has committed exactly its transaction
+	idx = e.faultFamilies(idx, false, "", 3)
 	// two processes alternating twice (cubic in the number of hook points): thorough only
 	if c.Thorough() {
 		for pi, pr := range [][2]string{{"add", "add"}, {"add", "compactall"}, {"autocompact", "add"}, {"compactall", "add,add"}, {"add", "autocompact"}, {"compactall", "compactall"}} {
